@@ -77,7 +77,7 @@ theorem eusCycle_ok (app : App) (hp : ProgJ app) (a0 : Arch) (hT : ∀ k a, Proo
     obtain ⟨s1, out⟩ := r
     simp only [eusCycle, bind, Except.bind, hv]
     rcases euCycle_sim app hp s s1 a i out (hT k a hk) hm (by omega) hv with
-      ⟨rfl, a1, hstep, hm1, hk1⟩ | ⟨rfl, c, hc⟩ | ⟨rfl, hret⟩ | ⟨a1, from_, rfl, ⟨c, hc⟩, hfl, hnbw⟩
+      ⟨rfl, a1, hstep, hm1, hk1, _⟩ | ⟨rfl, c, hc⟩ | ⟨rfl, hret⟩ | ⟨a1, from_, rfl, ⟨c, hc⟩, hfl, hnbw⟩
     · have hk' : ∃ k1, Proofs.Mvp4.seqIter app k1 a0 = some a1 := by
         rcases hstep with rfl | ⟨c, hc⟩
         · exact ⟨k, hk⟩
@@ -141,7 +141,7 @@ theorem cycleM_ok (app : App) (hp : ProgJ app) (a0 : Arch) (hT : ∀ k a, Proofs
     obtain ⟨s5, acc⟩ := r5
     simp only [h2, h3, hv, bind, Except.bind]
     rcases eusCycle_sim app hp a0 hT _ 0 _ s5 {} acc k a (by omega) hmid hk rfl hv with
-      ⟨rfl, k', a', hk', hm5, keep⟩ | ⟨herr, k', a', hk', c, hc⟩ | ⟨rfl, k', a', hk', hret⟩ | ⟨a', from_, rfl, k', hk', hfl⟩
+      ⟨rfl, k', a', hk', hm5, keep, _⟩ | ⟨herr, k', a', hk', c, hc⟩ | ⟨rfl, k', a', hk', hret, _⟩ | ⟨a', from_, rfl, k', hk', hfl, _⟩
     · have hwus5 : ∀ wu ∈ s5.wus, wu.co = .none := by rw [keep.wus]; exact c_wus
       obtain ⟨s6, h6, hm6⟩ := wusCycle_ok s5 hwus5 hm5.back.nomem
       simp only [afterEus, Bool.false_eq_true, if_false, bind, Except.bind, h6]
